@@ -25,6 +25,9 @@
 (*  shift(c)      H_0 + c: only H_tilde at order zero changes, by c        *)
 (*  scaleall(s)   s H (s > 0): H_tilde scales by s, U and U-dagger do not  *)
 (*  dsum          H = H1 (+) H2 decoupled: B = A (+) C                     *)
+(*  projection    operator_to_BlockSeries: the blocks of B are exactly     *)
+(*                L_i^dagger A R_j  (A: the operator terms, R = [R_0|..],  *)
+(*                L = [L_0|..] the subspace bases)                         *)
 (***************************************************************************)
 EXTENDS PowerSeries, TLC, Json, IOUtils
 
@@ -84,6 +87,7 @@ Expected(f, m) ==
                                 ELSE Val("A", f, m)
     [] rel.kind = "scaleall" -> IF f = "Ht" THEN MScale(rel.s, Val("A", f, m)) ELSE Val("A", f, m)
     [] rel.kind = "dsum"     -> DirectSum(Val("A", f, m), Val("C", f, m))
+    [] rel.kind = "projection" -> MMul(MAdj(rel.L), MMul(Val("A", f, m), rel.R))
 
 RInit == ses \in AllSessions /\ l = 1 /\ fails = {}
 \* one step per order of run B
